@@ -1,6 +1,7 @@
 import TdVerif.Sexp
 import TdVerif.Model.C12Chunk
 import TdVerif.Model.C12Pool
+import TdVerif.Model.C12Tensor
 
 namespace TdVerif.Drive
 open TdVerif Sexp TdVerif.C12
@@ -84,6 +85,15 @@ def kidsOf : Tree Nat → List (String × Tree Nat)
   | .node kids => kids
   | .leaf _ => []
 
+/-- all coordinates of a shape in row-major order -/
+def coords : List Nat → List (List Nat)
+  | [] => [[]]
+  | n :: rest => (List.range n).flatMap fun i => (coords rest).map fun c => i :: c
+
+/-- row-major flat index of a coordinate -/
+def ravel (shape c : List Nat) : Nat :=
+  (shape.zip c).foldl (fun acc p => acc * p.1 + p.2) 0
+
 end C12D
 open C12D
 
@@ -145,6 +155,15 @@ def handleC12 (cmd : String) (args : List Sexp) : Option Sexp :=
       match multithreadApply fe fn kids order with
       | some r => pure (tagged "ok" [ofNats sub, tr r, tr seq])
       | none => pure (tagged "err" [ofNats sub])
+  -- (c12.tcat (shape…) d ss): split a provenance tensor along d in pieces of ss and concatenate back:
+  -- (shape of the result, its values in row-major order)
+  | "c12.tcat", [.list shape, d, ss] => do
+      let shape ← nats? shape; let d ← asNat? d; let ss ← asNat? ss
+      let t : T Nat := ⟨shape, ravel shape⟩
+      let n := (shape[d]?).getD 0
+      let sl := fun (p : Nat × Nat) => narrow d p.1 (p.2 - p.1) t
+      let r := catList d (sl (0, min n ss)) ((splitLoop n ss (min n ss)).map sl)
+      pure (.list [ofNats r.shape, ofNats ((coords r.shape).map r.get)])
   | _, _ => none
 
 end TdVerif.Drive
